@@ -5,7 +5,7 @@ From Coq Require Import List ZArith Bool Arith.
 From SV Require Import C11.Paths C11.PathsSimple C11.DistCert C11.Bfs C11.BellmanFord C11.FloydWarshall
   C11.BfsSpec C11.BellmanFordSpec C11.BfsProofs1 C11.BfsProofs2 C11.BfsTheorems C11.BfsSpecProofs
   C11.BellmanFordProofs1 C11.BellmanFordProofs2 C11.BellmanFordProofs3 C11.BellmanFordSpecProofs
-  C11.FloydWarshallProofs1 C11.FloydWarshallProofs2 C11.Agree.
+  C11.FloydWarshallProofs1 C11.FloydWarshallProofs2 C11.Agree C11.Decide.
 Import ListNotations.
 Local Open Scope Z_scope.
 
@@ -101,11 +101,12 @@ Theorem C11_bf_neg_cycle_unbounded : forall start g n target, BF.valid_input sta
 Proof. exact bf_neg_cycle_unbounded. Qed.
 Print Assumptions C11_bf_neg_cycle_unbounded.
 
-Theorem C11_bf_unbounded_iff_classical : forall start g n target, BF.valid_input start g n target = true ->
-  (neg_cycle_reachable g start \/ ~ neg_cycle_reachable g start) ->
+(* the textbook form: reachability of a negative cycle is decidable (constructively, by running the verified models:
+   bellman_ford on the zero-weight copy decides reachability, floyd_warshall on the reachable part decides the cycle) *)
+Theorem C11_bf_unbounded_iff_neg_cycle : forall start g n target, BF.valid_input start g n target = true ->
   (BF.bellman_ford start g n target = BF.Unbounded <-> neg_cycle_reachable g start).
-Proof. exact bf_unbounded_iff_classical. Qed.
-Print Assumptions C11_bf_unbounded_iff_classical.
+Proof. exact bf_unbounded_iff_neg_cycle. Qed.
+Print Assumptions C11_bf_unbounded_iff_neg_cycle.
 
 (* _reconstruct_indexed always terminates: the parent pointers of finite nodes form a forest at every moment *)
 Theorem C11_bf_no_hang : forall start g n target, BF.bellman_ford start g n target <> BF.Hang.
